@@ -71,6 +71,8 @@ def run(repo, rep, tier):
     _helpers(repo, rep)
     _raise_sites(repo, rep, split_ok)
     _token_tables(repo, rep, split_ok)
+    _parser_outputs(repo, rep)
+    _match_spans(repo, rep)
     _location(repo, rep)
     _census(repo, rep)
     _dynamic_python(repo, rep)
@@ -394,6 +396,16 @@ def _chains(fnode, expr, upto_line, limit=8):
             go(e.body, line, steps, depth + 1)
             go(e.orelse, line, steps, depth + 1)
             return
+        if isinstance(e, (ast.ListComp, ast.GeneratorExp, ast.SetComp)):
+            return go(e.elt, line, steps + ["each"], depth + 1)
+        if isinstance(e, (ast.Tuple, ast.List)) and e.elts:
+            for x in e.elts[:4]:
+                go(x, line, steps + ["item-of"], depth + 1)
+            return
+        if isinstance(e, ast.BoolOp):
+            for x in e.values[:3]:
+                go(x, line, steps, depth + 1)
+            return
         if isinstance(e, ast.Name):
             found = []
             for n in ast.walk(fnode):
@@ -414,6 +426,7 @@ def _chains(fnode, expr, upto_line, limit=8):
                 out.append(steps + ["root:" + e.id])
                 return
             found = _kill_dominated(found, e)
+            found = _drop_exclusive(found, e)
             for ln, val, kind in found:
                 if val is e:
                     continue
@@ -464,6 +477,73 @@ def _kill_dominated(found, use):
     if best is None:
         return found
     return [f for f in found if f[0] >= best]
+
+
+def _drop_exclusive(found, use):
+    """A definition in one branch of an if statement does not reach a use in
+    the other branch of the same statement, provided some definition
+    dominates the use inside the innermost enclosing loop (so nothing is
+    carried round the loop)."""
+    ustmt = _stmt_of(use)
+    if ustmt is None or len(found) < 2:
+        return found
+
+    def branches(n):
+        out = []
+        prev, a = n, getattr(n, "_parent", None)
+        while a is not None and not isinstance(a, (ast.FunctionDef,
+                                                   ast.Lambda)):
+            if isinstance(a, ast.If):
+                if prev in a.body:
+                    out.append((a, "body"))
+                elif prev in a.orelse:
+                    out.append((a, "orelse"))
+            prev, a = a, getattr(a, "_parent", None)
+        return out
+
+    def loop_of(n):
+        a = getattr(n, "_parent", None)
+        while a is not None and not isinstance(a, (ast.FunctionDef,
+                                                   ast.Lambda)):
+            if isinstance(a, (ast.For, ast.While)):
+                return a
+            a = getattr(a, "_parent", None)
+        return None
+    ub = dict((id(i), side) for i, side in branches(ustmt))
+    uloop = loop_of(ustmt)
+    # is there a dominating definition inside the same loop?
+    anc = []
+    a = ustmt
+    while a is not None and not isinstance(a, (ast.FunctionDef, ast.Lambda)):
+        anc.append(a)
+        a = getattr(a, "_parent", None)
+    dominated = False
+    for ln, val, kind in found:
+        d = _stmt_of(val)
+        if d is None:
+            continue
+        if kind == "elem" and d in anc:
+            dominated = True
+        par = getattr(d, "_parent", None)
+        for fld in ("body", "orelse", "finalbody"):
+            blk = getattr(par, fld, None)
+            if isinstance(blk, list) and d in blk and any(
+                    x in blk and blk.index(x) > blk.index(d) for x in anc):
+                if loop_of(d) is uloop or uloop is None:
+                    dominated = True
+    if not dominated:
+        return found
+    keep = []
+    for item in found:
+        d = _stmt_of(item[1])
+        excl = False
+        if d is not None:
+            for i, side in branches(d):
+                if id(i) in ub and ub[id(i)] != side:
+                    excl = True
+        if not excl:
+            keep.append(item)
+    return keep or found
 
 
 def template_error_classes(repo):
@@ -622,6 +702,147 @@ def _location(repo, rep):
     rep.check(ok_col, "R11.6", f.qualname, "column = pos - (index of the "
               "last '\\n' in source[:pos]) - 1", construct="location-column",
               where=wh, detail=detail)
+
+
+PARSER_FUNCS = ("chameleon.tal.parse_defines", "chameleon.tal.parse_attributes",
+                "chameleon.tal.parse_substitution", "chameleon.tal.split_parts",
+                "chameleon.parser.groups", "chameleon.parser.groupdict")
+
+
+def _parser_outputs(repo, rep):
+    """What the statement parsers hand to the node constructors (return
+    values, items appended to the result) is later used as the token of
+    errors raised far away (reserved names, duplicate names ...): every
+    piece taken from the clause must still be a Token, i.e. its def-use
+    chain inside the parser passes no str method that Token does not
+    override."""
+    n = 0
+    for q in PARSER_FUNCS:
+        f = repo.func(q)
+        outs = []
+        for st in ast.walk(f.node):
+            if isinstance(st, ast.Return) and st.value is not None:
+                outs.append((st.value, st.lineno))
+            elif isinstance(st, ast.Expr) and isinstance(st.value, ast.Call) \
+                    and isinstance(st.value.func, ast.Attribute) and \
+                    st.value.func.attr in ("append", "extend", "insert") and \
+                    st.value.args:
+                outs.append((st.value.args[-1], st.lineno))
+            elif isinstance(st, ast.Expr) and isinstance(
+                    st.value, (ast.Yield, ast.YieldFrom)) and \
+                    st.value.value is not None:
+                outs.append((st.value.value, st.lineno))
+        for e, ln in outs:
+            names = []
+            for x in ast.walk(e):
+                if isinstance(x, ast.Name) and isinstance(x.ctx, ast.Load):
+                    names.append(x)
+            for nm in names:
+                chains = _chains(f.node, nm, ln + 1)
+                rooted = [c for c in chains if not c[-1].startswith("const")
+                          and c[-1] != "..."]
+                if not rooted:
+                    continue
+                n += 1
+                plain = [[x for x in c if x == "call:str" or
+                          x.startswith("format:") or
+                          (x.startswith("method:") and
+                           x[7:] in PLAIN_METHODS)] for c in rooted]
+                shown = " | ".join(" <- ".join(c) for c in rooted[:2])
+                rep.check(not any(plain), "R11.2", f.qualname,
+                          "'%s' handed on by %s keeps its source position "
+                          "(chains: %s)" % (nm.id, f.name, shown[:160]),
+                          construct="parser-output:%s" % nm.id,
+                          where=L.where(f, ln),
+                          detail="a definition passes %s: a plain str"
+                                 % [x for x in plain if x][:2])
+    rep.count("parser_output_names", n)
+    if n < 8:
+        raise AnalysisError("parser outputs vanished (%d)" % n)
+    # every tag token is dissected itself: parse_tag reaches match_tag(token)
+    # on every returning path (a table of previously seen, equal-looking tags
+    # would hand out the attribute tokens -- and positions -- of the first)
+    pt = repo.func("chameleon.parser.parse_tag")
+    tok = pt.node.args.args[0].arg
+    paths = [p for p in P.enum_paths(pt.node.body) if p[-1][0] == "return"]
+    miss = [p for p in paths if not any(
+        src(c.func) == "match_tag" and c.args and src(c.args[0]) == tok
+        for c, _ in P.calls_on_path(p))]
+    rep.check(bool(paths) and not miss, "R11.2", pt.qualname, "every path of "
+              "parse_tag dissects the token it was given (match_tag(%s))"
+              % tok, construct="tag-parsed-itself", where=L.where(pt),
+              detail=P.path_text(miss[0], 10) if miss else "")
+
+
+def _match_spans(repo, rep):
+    """A token cut out with a match object's span must use the coordinate
+    system the search ran in: m = R.search(S[k:]) -> S[k + m.start() : k +
+    m.end()];  m = R.search(S) or R.search(S, k) -> S[m.start() : m.end()]."""
+    n = 0
+    for q, f in sorted(repo.funcs.items()):
+        if f.module.name not in COMPILE_PATH:
+            continue
+        for sub in ast.walk(f.node):
+            if not (isinstance(sub, ast.Subscript) and
+                    isinstance(sub.slice, ast.Slice) and
+                    isinstance(sub.value, ast.Name) and
+                    sub.slice.lower is not None and
+                    sub.slice.upper is not None):
+                continue
+            spans = [c for c in ast.walk(sub.slice)
+                     if isinstance(c, ast.Call) and
+                     isinstance(c.func, ast.Attribute) and
+                     c.func.attr in ("start", "end") and not c.args and
+                     isinstance(c.func.value, ast.Name)]
+            if len(spans) != 2:
+                continue
+            mname = spans[0].func.value.id
+            defs = [a for a in ast.walk(f.node) if isinstance(a, ast.Assign)
+                    and any(isinstance(t, ast.Name) and t.id == mname
+                            for t in a.targets) and a.lineno < sub.lineno and
+                    isinstance(a.value, ast.Call) and
+                    isinstance(a.value.func, ast.Attribute) and
+                    a.value.func.attr in ("search", "match")]
+            if not defs:
+                continue
+            d = defs[-1].value
+            if not d.args:
+                continue
+            arg = d.args[0]
+            S = sub.value.id
+            shift = None
+            if isinstance(arg, ast.Name) and arg.id == S:
+                shift = "0"
+            elif isinstance(arg, ast.Subscript) and isinstance(
+                    arg.value, ast.Name) and arg.value.id == S and \
+                    isinstance(arg.slice, ast.Slice) and \
+                    arg.slice.upper is None and arg.slice.lower is not None:
+                shift = src(arg.slice.lower)
+            if shift is None:
+                continue
+            n += 1
+
+            def norm(e):
+                t = src(e).replace(" ", "")
+                return t
+            want_lo = ("%s.start()" % mname) if shift == "0" else \
+                "%s+%s.start()" % (shift, mname)
+            want_hi = ("%s.end()" % mname) if shift == "0" else \
+                "%s+%s.end()" % (shift, mname)
+            alt_lo = "%s.start()+%s" % (mname, shift)
+            alt_hi = "%s.end()+%s" % (mname, shift)
+            import re as _re
+            up = _re.sub(r"-\d+$", "", norm(sub.slice.upper))  # shrinking
+            ok = norm(sub.slice.lower) in (want_lo, alt_lo) and \
+                up in (want_hi, alt_hi)
+            rep.check(ok, "R11.1", f.qualname, "the slice %s uses the "
+                      "coordinates of the string the search ran on (%s)"
+                      % (src(sub), src(d)), construct="span-shift:" + mname,
+                      where=L.where(f, sub.lineno),
+                      detail="expected shift %s" % shift)
+    rep.count("match_span_slices", n)
+    if n < 1:
+        raise AnalysisError("no match-span slice found (identify vanished?)")
 
 
 TOKEN_TABLE_WRITERS = (
